@@ -10,6 +10,7 @@ import (
 	"net/http"
 	"sort"
 	"strings"
+	"testing/iotest"
 	"time"
 
 	webdav "github.com/emersion/go-webdav"
@@ -85,7 +86,13 @@ func (m *MemFS) meta(p string, data []byte) webdav.FileInfo {
 		m.tagSeq++
 		tag = fmt.Sprintf("%s#%d", tag, m.tagSeq)
 	}
-	return webdav.FileInfo{Path: p, Size: int64(len(data)), ModTime: exoticTime(m.rng), MIMEType: rt.Pick(m.rng, exoticMimes), ETag: tag}
+	size := int64(len(data))
+	if m.rng.Chance(0.08) && !m.Conditional {
+		// a size that is only metadata (the stored bytes do not follow it): the
+		// range of what a backend may report
+		size = rt.Pick(m.rng, []int64{1<<31 - 1, 1 << 31, 1<<32 + 1, 1<<53 + 1, 1 << 62})
+	}
+	return webdav.FileInfo{Path: p, Size: size, ModTime: exoticTime(m.rng), MIMEType: rt.Pick(m.rng, exoticMimes), ETag: tag}
 }
 
 // checkCond evaluates If-Match / If-None-Match the way the statement of C04
@@ -145,6 +152,19 @@ func (m *MemFS) Open(ctx context.Context, name string) (io.ReadCloser, error) {
 		return nil, notFound(p)
 	}
 	// not an io.Seeker on purpose: exercises the handler's plain io.Copy branch
+	if !m.directCall && m.streamFault == nil {
+		// readers differ in how they end: io.EOF on its own, or together with
+		// the last bytes (gzip, HTTP bodies and iotest.DataErrReader do that), in
+		// big or in tiny reads
+		switch m.rng.Intn(4) {
+		case 1:
+			return io.NopCloser(iotest.DataErrReader(bytes.NewReader(n.data))), nil
+		case 2:
+			return io.NopCloser(iotest.OneByteReader(bytes.NewReader(n.data))), nil
+		case 3:
+			return io.NopCloser(iotest.DataErrReader(iotest.HalfReader(bytes.NewReader(n.data)))), nil
+		}
+	}
 	if f := m.streamFault; f != nil && !m.directCall {
 		m.streamFired = true
 		return &FaultBody{Data: n.data, Fault: &Fault{Seam: "backend-stream", At: f.At % (len(n.data) + 1), Kind: "custom-error"}}, nil
